@@ -34,7 +34,9 @@ def run(ctx):
         s = [x for x in ev.sites.values() if x.callee[0] == "BlsSignaturePop::pop_prove"]
         ok = bool(s) and F.projection_root(strip_sites(s[0].args[0])) is not None and F.projection_root(strip_sites(s[0].args[0]))[0].a[1] == "self"
         ctx.ob("E5.chain", "SecretKey<C>::proof_of_possession", ok, "pop_prove(&self.0): the key's own scalar, unmodified", where=where(f))
-        wrapped = any(t.op == "agg" and t.a[0][1:2] == ("ProofOfPossession",) for t in subterms(ev.ret))
+        from .spec import built_variants
+
+        wrapped = bool(built_variants(ev.ret, "ProofOfPossession"))
         ctx.ob("E5.chain", "SecretKey<C>::proof_of_possession/result", wrapped, "result wraps the pop_prove output", where=where(f))
     f = ctx.need_fn("E5.chain", "ProofOfPossession<C>::verify")
     if f is not None:
